@@ -58,3 +58,6 @@ pub fn verif_min<T: VerifMinMax>(a: T, b: T) -> (r: T)
 pub assume_specification<T, E>[ Result::<T, E>::unwrap_or ](res: Result<T, E>, default: T) -> (out: T)
     ensures out == (match res { Ok(t) => t, Err(_) => default }),
 ;
+pub assume_specification<T>[ Option::<T>::or ](a: Option<T>, b: Option<T>) -> (out: Option<T>)
+    ensures out == (if a is Some { a } else { b }),
+;
